@@ -452,8 +452,10 @@ class Field(WeightedGraph):
         if np.size(self.field) == 0:
             raise ValueError('No field has been defined so far')
         seed = seed.astype(np.int_)
-        weights = np.sqrt(np.sum((self.field[self.edges.T[0]] -
-                                  self.field[self.edges.T[1]]) ** 2, 1))
+        # differences of (narrow or unsigned) integer data must not wrap around
+        field = np.asarray(self.field, dtype=np.float64)
+        weights = np.sqrt(np.sum((field[self.edges.T[0]] -
+                                  field[self.edges.T[1]]) ** 2, 1))
         g = WeightedGraph(self.V, self.edges, weights)
         label = g.voronoi_labelling(seed)
         return label
